@@ -45,6 +45,8 @@ def _list(I, args, kw):
 def _tuple(I, args, kw):
     if not args:
         return ()
+    if isinstance(args[0], Sym) and args[0].sort() == Val:
+        return args[0]  # tuple(opaque sequence): same opaque value
     it = I.iterate(args[0])
     if isinstance(it, SymList):
         return it
